@@ -49,18 +49,47 @@ def closure(case):
     return {PREFIX + x for x in out}
 
 
+def closure_max(case):
+    """Upper reading for graphs in which a redirect points at a redirect:
+    "redirects from or to a marked template" applied until nothing changes
+    (closure() applies it once, to the set marked through flags and
+    inclusion).  The statement does not say which; both are accepted."""
+    by_name = {n["name"]: n for n in case["nodes"]}
+    out = {x[len(PREFIX):] for x in closure(case)}
+    changed = True
+    while changed:
+        changed = False
+        for n in case["nodes"]:
+            r = n["redirect"]
+            if r is None or r not in by_name:
+                continue
+            if r in out and n["name"] not in out:
+                out.add(n["name"])
+                changed = True
+            if n["name"] in out and r not in out:
+                out.add(r)
+                changed = True
+    return {PREFIX + x for x in out}
+
+
+def has_double_redirect(case):
+    by_name = {n["name"]: n for n in case["nodes"]}
+    for n in case["nodes"]:
+        t = by_name.get(n["redirect"]) if n["redirect"] is not None else None
+        if t is not None and t["redirect"] is not None:
+            return True
+    return False
+
+
 def domain_ok(case):
-    """Single-hop redirects only (a redirect never points at a redirect);
-    redirect pages have no body, hence include nothing."""
+    """Redirect pages have no body, hence include nothing; no redirect to
+    itself."""
     by_name = {n["name"]: n for n in case["nodes"]}
     if len(by_name) != len(case["nodes"]):
         return False
     for n in case["nodes"]:
         if n["redirect"] is not None:
             if n["uses"]:
-                return False
-            t = by_name.get(n["redirect"])
-            if t is not None and t["redirect"] is not None:
                 return False
             if n["redirect"] == n["name"]:
                 return False
@@ -177,6 +206,11 @@ def check(ctx, case):
         return ({"kind": "classifier-not-called-once-per-template"},
                 f"classifier calls {val[0]!r}, templates {val[1]!r}")
     marked, other = val
+    if has_double_redirect(case):
+        hi = closure_max(case)
+        if want <= marked <= hi:
+            return None
+        want = want if not want <= marked else hi
     if marked != want:
         missing = sorted(want - marked)
         extra = sorted(marked - want)
@@ -233,12 +267,23 @@ def exhaustive_cases():
                             nodes.append({"name": "R", "uses": [],
                                           "flag": rflag, "redirect": tgt})
                             yield {"nodes": nodes}
+                # a redirect page whose target is itself a redirect page
+                # (to a template or to nothing), every flag placement
+                for tgt in names[:1] + ["Missing"]:
+                    for rflag, qflag in itertools.product((False, True),
+                                                          repeat=2):
+                        nodes = [dict(x) for x in base]
+                        nodes.append({"name": "R", "uses": [], "flag": rflag,
+                                      "redirect": "Q"})
+                        nodes.append({"name": "Q", "uses": [], "flag": qflag,
+                                      "redirect": tgt})
+                        yield {"nodes": nodes}
 
 
 def n_exhaustive():
     t = 0
     for n in (1, 2, 3):
-        t += (1 << (n * n)) * ((1 << n) * (1 + n * 2 * (1 << n))
+        t += (1 << (n * n)) * ((1 << n) * (1 + n * 2 * (1 << n) + 8)
                                + ((1 << n) - 1))
     return t
 
@@ -254,7 +299,8 @@ def graph_case(draw):
     targets = [x for x in names if x not in redirs]
     for a in names:
         if a in redirs:
-            tgt = draw(st.sampled_from(targets + ["Missing"]))
+            tgt = draw(st.sampled_from(
+                targets + ["Missing"] + sorted(redirs - {a})[:1]))
             nodes.append({"name": a, "uses": [],
                           "flag": draw(st.integers(0, 9)) == 0,
                           "redirect": tgt})
@@ -287,11 +333,13 @@ def shard(idx, nshards, seed, stride, n_random, known):
             part.excluded["skipped after repeated non-termination"] += 1
             return
         if not domain_ok(case):
-            part.excluded["outside domain (double redirect)"] += 1
+            part.excluded["outside domain (redirect page with a body / to itself)"] += 1
             return
         f = features(case)
         nt = ("cycle" in f or "diamond" in f or "self-loop" in f) and \
             "flag-with-unflagged-ancestor" in f
+        if has_double_redirect(case):
+            f = set(f) | {"double-redirect"}
         part.case(h(case), nt, classes=["gen:" + origin] + sorted(f),
                   sample={"graph": describe(case)})
         v = check(ctx, case)
@@ -353,9 +401,11 @@ def run(run):
         "unflagged ancestor."
     )
     run.assumptions = [
-        "references use the stored spelling; single-hop redirects only "
-        "(a redirect pointing at a redirect is outside the domain); redirect "
-        "pages include nothing",
+        "references use the stored spelling; redirect pages include nothing; "
+        "where a redirect points at a redirect the statement leaves open "
+        "whether the redirect rule is applied once or until nothing changes: "
+        "the marked set must lie between those two readings (equal to the "
+        "single reading everywhere else)",
         "templates included only through a redirect page are not part of the "
         "closure (redirect marks are added after the fixed point, as the "
         "statement orders them)",
